@@ -6,6 +6,9 @@ RDIR = os.path.join(vx.VERIF, "replay")
 
 
 def build():
+    if os.path.realpath(vx.REPO) != "/repo":
+        # the replay crate depends on /repo by path; a scratch tree is searched through a copy of the crate manifest
+        return build_for(vx.REPO)
     env = dict(os.environ, CARGO_NET_OFFLINE="true")
     try:
         shutil.copyfile(os.path.join(vx.REPO, "Cargo.lock"), os.path.join(RDIR, "Cargo.lock"))
@@ -17,13 +20,37 @@ def build():
     return os.path.join(RDIR, "target", "debug", "fb-replay"), None
 
 
+def build_for(repo):
+    import tempfile
+    d = os.path.join(repo, ".vx-replay")
+    os.makedirs(os.path.join(d, "src"), exist_ok=True)
+    shutil.copyfile(os.path.join(RDIR, "src", "main.rs"), os.path.join(d, "src", "main.rs"))
+    man = open(os.path.join(RDIR, "Cargo.toml")).read().replace('path = "/repo"', 'path = "%s"' % repo)
+    open(os.path.join(d, "Cargo.toml"), "w").write(man + "\n[workspace]\n")
+    try:
+        shutil.copyfile(os.path.join(repo, "Cargo.lock"), os.path.join(d, "Cargo.lock"))
+    except OSError:
+        pass
+    env = dict(os.environ, CARGO_NET_OFFLINE="true", CARGO_TARGET_DIR=os.path.join(RDIR, "target"))
+    r = subprocess.run(["cargo", "build", "--offline"], cwd=d, env=env, stdout=subprocess.PIPE, stderr=subprocess.PIPE, text=True)
+    if r.returncode != 0:
+        return None, r.stderr[-1500:]
+    exe = os.path.join(d, "fb-replay")
+    shutil.copyfile(os.path.join(RDIR, "target", "debug", "fb-replay"), exe)
+    os.chmod(exe, 0o755)
+    return exe, None
+
+
 def run(pid, seed, iters, known=False, timeout=240):
     exe, err = build()
     if exe is None:
         return None, "replay driver does not build against the current tree: " + str(err)
     cmd = [exe, pid, "--seed", str(seed or 1), "--iters", str(iters)] + (["--known"] if known else [])
+    def limit():
+        import resource
+        resource.setrlimit(resource.RLIMIT_AS, (3 << 30, 3 << 30))
     try:
-        r = subprocess.run(cmd, stdout=subprocess.PIPE, stderr=subprocess.PIPE, text=True, timeout=timeout)
+        r = subprocess.run(cmd, stdout=subprocess.PIPE, stderr=subprocess.PIPE, text=True, timeout=timeout, preexec_fn=limit)
     except subprocess.TimeoutExpired:
         return None, "timeout"
     for line in r.stdout.splitlines():
@@ -35,7 +62,8 @@ def run(pid, seed, iters, known=False, timeout=240):
                 pass
     if r.returncode not in (0, 1):
         # the real code crashed (panic / abort) while replaying: that is a concrete failing run as well
-        return {"property": pid, "scenario": "crash", "history": [], "observed": (r.stderr or "")[-600:]}, " ".join(cmd)
+        return {"property": pid, "scenario": "the real crate crashed while replaying random histories (exit status %d; address space capped at 3 GiB)" % r.returncode,
+                "history": [], "observed": (r.stderr or "")[-600:] or "killed / aborted without message (memory exhaustion)"}, " ".join(cmd)
     return None, " ".join(cmd)
 
 
